@@ -187,3 +187,31 @@ def run(ctx):
     run_ops(ctx, ops, 'optwork')
     if 'http_part' in globals():
         http_part(ctx)
+
+
+def http_part(ctx):
+    import itertools
+    from .. import httpgen
+    r = ctx.rng
+    ops = []
+    alpha = [b"\r", b"\n", b" ", b"\t", b":", b"A", b"\xff"]
+    maxlen = 4 if ctx.quick() else 6
+    for n in range(0, maxlen + 1):
+        for t in itertools.product(alpha, repeat=n):
+            ops.append("httpall\t" + b"".join(t).hex())
+    for _ in range(ctx.n(6000, 200000)):
+        raw, _p = httpgen.message(r, fold=0.1)
+        c = r.random()
+        if c < 0.5:
+            for _k in range(r.choice([1, 2, 3])):
+                raw = httpgen.corrupt(r, raw)
+        elif c < 0.6:
+            raw = bytes(r.choice(b"\r\n :AGETHP/1.\xff\x00") for _ in range(r.randrange(0, 40)))
+        ops.append("httpall\t" + raw.hex())
+    # long inputs: work must stay proportional
+    for k in (10, 100, 400):
+        ops.append("httpall\t" + (b"GET / HTTP/1.1\r\n" + b"X: y\r\n" * k + b"\r\n").hex())
+        ops.append("httpall\t" + (b"GET / HTTP/1.1\r\nA: b\r\n" + b" c\r\n" * k + b"\r\n").hex())
+        ops.append("httpall\t" + (b"A" * (50 * k)).hex())
+    run_ops(ctx, ops, "httpall")
+    ctx.notes.setdefault("exhaustive_subdomains", []).append("all HTTP payloads over {CR,LF,SP,HT,':','A',0xff} up to length %d" % maxlen)
